@@ -26,7 +26,7 @@ ASSUMPTIONS = [
     'results are compared by value, python type and repr (so -0.0/0.0 and '
     'int/float/bool are told apart)',
     'string repetition is compared exactly up to 100 result characters; '
-    'above 5000 predicted characters MemoryQuotaExceededException is '
+    'above 40000 predicted characters MemoryQuotaExceededException is '
     'required under memoryQuota=20000; in between it is not judged',
 ]
 
@@ -78,10 +78,10 @@ def _judge(run, case, clause_prefix, expected, got, desc):
             return
         if chars <= 100:
             expected = ('ok', s * n)
-        elif chars > 5000:
+        elif chars > 2 * QUOTA:
             expected = ('exc', 'MemoryQuotaExceededException')
         else:
-            run.exclude('repetition between 100 and 5000 chars not judged')
+            run.exclude('repetition between 100 and 2*quota chars not judged')
             return
     if expected[0] == 'ok':
         if got[0] != 'ok':
